@@ -89,6 +89,9 @@ var opNames = []string{
 	"t2j.Do(cut-end)",
 	"j2p.Do(bad)",
 	"p2j.Do(cut)",
+	"j2t.HTTPConv.Do(fallback,missing-required)",
+	"j2t.HTTPConv.Do(traceback,missing-required)",
+	"thrift.MarshalTo(Small,missing-required)",
 	"j2t.Do(flat)",
 	"j2t.Do(nested)",
 	"j2t.DoInto(nested)",
@@ -96,6 +99,10 @@ var opNames = []string{
 	"t2j.Do(nested)",
 	"t2j.DoInto(nested)",
 	"j2t.HTTPConv.Do",
+	"j2t.HTTPConv.Do(no-body)",
+	"j2t.HTTPConv.Do(fallback,write-default)",
+	"j2t.HTTPConv.Do(traceback,ok)",
+	"j2t.HTTPConv.Do(form)",
 	"t2j.HTTPConv.Do",
 	"j2p.Do(nested)",
 	"p2j.Do(nested)",
@@ -237,6 +244,9 @@ func newFixture() (*fixture, error) {
 	in["pb-nested"] = protoReq(2)
 	in["pb-cut"] = in["pb-nested"][:len(in["pb-nested"])/2] // NOTE: not cut inside the packed list (p2j loops forever there: C06 finding)
 	in["pbjson-nested"] = []byte(`{"msg":"pb","items":[{"a":1,"b":"x"},{"a":2,"b":"y"}],"m":{"k1":5},"bin":"AAH/","code":7,"nums":[1,2,150]}`)
+	in["json-no-code"] = []byte(`{"msg":"he","items":[{"a":1,"b":"x"}],"m":{"k1":1}}`)
+	in["form-body"] = []byte(`msg=formmsg&code=12`)
+	in["thrift-small-missing-required"] = tbin.Bytes(tbin.Struct(tbin.F(1, tbin.Str("only msg"))))
 	in["pbjson-bad"] = []byte(`{"msg":"pb","items":[{"a":1,"b":"x"},{"a":"zz"}],"code":7}`)
 	for k, v := range in {
 		f.sums[k] = crc32.ChecksumIEEE(v)
@@ -256,6 +266,47 @@ func newFixture() (*fixture, error) {
 	add("t2j.Do(cut-end)", func() ([]byte, error) { return f.t2jc.Do(ctx, f.reqT, in["thrift-cut-end"]) })
 	add("j2p.Do(bad)", func() ([]byte, error) { return f.j2pc.Do(ctx, f.preqT, in["pbjson-bad"]) })
 	add("p2j.Do(cut)", func() ([]byte, error) { return f.p2jc.Do(ctx, f.preqT, in["pb-cut"]) })
+	httpReq := func(method, url string, body []byte, ctype string, hdr map[string]string) (*dhttp.HTTPRequest, error) {
+		var rd *bytes.Reader
+		if body != nil {
+			rd = bytes.NewReader(body)
+		}
+		var hr *stdhttp.Request
+		var err error
+		if rd != nil {
+			hr, err = stdhttp.NewRequest(method, url, rd)
+		} else {
+			hr, err = stdhttp.NewRequest(method, url, stdhttp.NoBody) // a server-side request always has a non-nil Body
+		}
+		if err != nil {
+			return nil, err
+		}
+		if ctype != "" {
+			hr.Header.Set("Content-Type", ctype)
+		}
+		for k, v := range hdr {
+			hr.Header.Set(k, v)
+		}
+		return dhttp.NewHTTPRequestFromStdReq(hr)
+	}
+	// failing http-mapped conversions (a required field has no source) under the fallback options
+	add("j2t.HTTPConv.Do(fallback,missing-required)", func() ([]byte, error) {
+		req, err := httpReq("POST", "http://localhost/m", in["json-no-code"], "application/json", nil)
+		if err != nil {
+			return nil, err
+		}
+		return j2t.NewHTTPConv(meta.EncodingThriftBinary, f.fnM).Do(ctx, req, conv.Options{EnableHttpMapping: true, ReadHttpValueFallback: true})
+	})
+	add("j2t.HTTPConv.Do(traceback,missing-required)", func() ([]byte, error) {
+		req, err := httpReq("POST", "http://localhost/m", []byte(`{}`), "application/json", nil)
+		if err != nil {
+			return nil, err
+		}
+		return j2t.NewHTTPConv(meta.EncodingThriftBinary, f.fnM).Do(ctx, req, conv.Options{EnableHttpMapping: true, ReadHttpValueFallback: true, TracebackRequredOrRootFields: true})
+	})
+	add("thrift.MarshalTo(Small,missing-required)", func() ([]byte, error) {
+		return generic.NewValue(f.smallT, in["thrift-small-missing-required"]).MarshalTo(f.reqT, &generic.Options{})
+	})
 	add("j2t.Do(flat)", func() ([]byte, error) { return f.j2tc.Do(ctx, f.reqT, in["json-flat"]) })
 	add("j2t.Do(nested)", func() ([]byte, error) { return f.j2tc.Do(ctx, f.reqT, in["json-nested"]) })
 	add("j2t.DoInto(nested)", func() ([]byte, error) {
@@ -283,6 +334,34 @@ func newFixture() (*fixture, error) {
 		}
 		cv := j2t.NewHTTPConv(meta.EncodingThriftBinary, f.fnM)
 		return cv.Do(ctx, req, conv.Options{EnableHttpMapping: true})
+	})
+	add("j2t.HTTPConv.Do(no-body)", func() ([]byte, error) {
+		req, err := httpReq("GET", "http://localhost/m?msg=q", nil, "", map[string]string{"code": "5"})
+		if err != nil {
+			return nil, err
+		}
+		return j2t.NewHTTPConv(meta.EncodingThriftBinary, f.fnM).Do(ctx, req, conv.Options{EnableHttpMapping: true})
+	})
+	add("j2t.HTTPConv.Do(fallback,write-default)", func() ([]byte, error) {
+		req, err := httpReq("POST", "http://localhost/m", in["json-nested"], "application/json", nil)
+		if err != nil {
+			return nil, err
+		}
+		return j2t.NewHTTPConv(meta.EncodingThriftBinary, f.fnM).Do(ctx, req, conv.Options{EnableHttpMapping: true, ReadHttpValueFallback: true, WriteDefaultField: true, WriteOptionalField: true})
+	})
+	add("j2t.HTTPConv.Do(traceback,ok)", func() ([]byte, error) {
+		req, err := httpReq("POST", "http://localhost/m", in["json-nested"], "application/json", nil)
+		if err != nil {
+			return nil, err
+		}
+		return j2t.NewHTTPConv(meta.EncodingThriftBinary, f.fnM).Do(ctx, req, conv.Options{EnableHttpMapping: true, ReadHttpValueFallback: true, TracebackRequredOrRootFields: true})
+	})
+	add("j2t.HTTPConv.Do(form)", func() ([]byte, error) {
+		req, err := httpReq("POST", "http://localhost/m", in["form-body"], "application/x-www-form-urlencoded", nil)
+		if err != nil {
+			return nil, err
+		}
+		return j2t.NewHTTPConv(meta.EncodingThriftBinary, f.fnM).Do(ctx, req, conv.Options{EnableHttpMapping: true, ReadHttpValueFallback: true})
 	})
 	add("t2j.HTTPConv.Do", func() ([]byte, error) {
 		rs := &respSetter{}
